@@ -533,6 +533,8 @@ class Session:
         m = self._mode(self.status_cb_mode, n)
         if m == "raise":
             raise RuntimeError("status callback failed (injected)")
+        if m == "raise_bare":
+            raise TimeoutError()          # an exception without arguments (what asyncio.wait_for raises)
         if m == "slow":
             await asyncio.sleep(0.05)
 
@@ -951,7 +953,7 @@ def sp_send(msg_factory):
     return sp
 
 
-def steady_state(probe_bytes):
+def steady_state(probe_bytes, second_probe=False):
     """Environment policy once the script is over: accept every connection attempt
     (unless a refusal is armed) and send one probe packet on every connection as soon as the
     client reports CONNECTED."""
@@ -959,6 +961,16 @@ def steady_state(probe_bytes):
         c = sess.gw.live_conn()
         if c is not None and not getattr(c, "probed", False) and sess.client.state == State.CONNECTED and not c.eof_sent:
             c.probed = True
+            c.probe_t = sess.loop.time()
+            sess.obs.marks.setdefault("probes", []).append((c.cid, round(sess.loop.time(), 6), len(sess.obs.received)))
+            sess.env(c.transport.env_feed, probe_bytes)
+            if second_probe:
+                sess.spawn(asyncio.sleep(0.5), "probe-gap")        # lets half a second pass before the second probe
+            return True
+        # a second probe half a second later: whatever was still in flight when the connection came up has settled by then
+        if (second_probe and c is not None and getattr(c, "probed", False) and not getattr(c, "probed2", False) and not c.eof_sent
+                and sess.client.state == State.CONNECTED and sess.loop.time() >= c.probe_t + 0.5 - 1e-9):
+            c.probed2 = True
             sess.obs.marks.setdefault("probes", []).append((c.cid, round(sess.loop.time(), 6), len(sess.obs.received)))
             sess.env(c.transport.env_feed, probe_bytes)
             return True
